@@ -1295,8 +1295,8 @@ def run(ctx):
     ctx.assume("requests cqlengine itself refuses (QueryException / ValidationError) are skipped; IN inside iff(), Token in iff(), static-only "
                "rows (null clustering key) and counters through the model API are not generated here (C35 drives those flows)")
     rng = ctx.rng
-    n_cases = ctx.scale(24000, 700000)
-    budget = 45 if ctx.quick else 330
+    n_cases = ctx.scale(16000, 700000)
+    budget = 35 if ctx.quick else 330
     done = 0
     with CqeSession("c37", None, seed=ctx.seed) as h:
         from cassandra.cqlengine import columns as C, models, query as Q, statements as ST, functions as F, operators as OPS
